@@ -150,6 +150,11 @@ def evaluate(case):
     vb = tuple(case["vb"])
     items = [tuple(i) for i in case["items"]]
     src = source_doc(vb, items, case.get("group", False), case.get("covering", False))
+    if case.get("vbsep"):
+        # the same viewBox with another legal separator between its numbers
+        import re as _re
+
+        src = _re.sub(r'viewBox="([^"]+)"', lambda m: 'viewBox="' + case["vbsep"].join(m.group(1).split()) + '"', src, count=1)
     o, why, out, st = judge(src, vb, case["seed"], case["tier"], case.get("via", "lib"))
     straddle = any(g in (0.0, 1.0) for _, gx, gy in items for g in (gx, gy)) or case.get("covering", False) or case.get("hair", False)
     outside = any(g in (-0.42, 1.42) for _, gx, gy in items for g in (gx, gy))
@@ -363,6 +368,11 @@ def all_clip_cases(tier, seed):
         for s in ("rect", "circle", "tri", "bbrect"):
             for gx, gy in ((0.8205, 0.5), (0.82002, 0.5), (0.5, 0.1795), (0.8205, 0.82002), (0.17998, 0.8205)):
                 yield {"fam": "clip", "vb": list(vb), "items": [[s, gx, gy]], "tier": tier, "seed": seed, "hair": True}
+    # viewBox written with commas / tabs / line breaks between its numbers
+    for vb in VIEWBOXES:
+        for sep in (",", ", ", "\t", "\n ", " ,"):
+            for s_, gx, gy in (("rect", 1.0, 0.5), ("circle", 0.0, 0.0), ("tri", 1.42, 0.5)):
+                yield {"fam": "clip", "vb": list(vb), "items": [[s_, gx, gy], ["rect", 0.5, 0.5]], "vbsep": sep, "tier": tier, "seed": seed}
     # geometry that misses the viewBox although its box overlaps it, alone and between two shapes that stay
     for vb in VIEWBOXES:
         for s, gx, gy in (("frame", 0.5, 0.5), ("cornerL", 1.0, 1.0), ("diag", 0.0, 0.0)):
